@@ -34,6 +34,7 @@ pub struct TextInfo {
     pub parens: usize,
     pub auto_shaped_names: bool,
     pub shuffled: bool,
+    pub deduped: bool,
 }
 
 // -------------------------------------------------------------------------------------------
@@ -148,7 +149,7 @@ impl Names {
                 3 => format!("{}_{}", kind.to_uppercase(), k),
                 _ => {
                     // shaped like the names the library invents for unnamed sub-expressions
-                    format!("{}{}", AUTO_PREFIXES[src.below(AUTO_PREFIXES.len())], 1 + src.below(8))
+                    format!("{}{}", AUTO_PREFIXES[src.below(AUTO_PREFIXES.len())], 1 + src.below(6))
                 }
             };
             let cand = if attempt > 20 { format!("{}{}", cand, k) } else { cand };
@@ -350,9 +351,70 @@ fn comment(src: &mut Src) -> String {
     format!("--{}", palette[src.below(palette.len())])
 }
 
+/// Merge witness-free nodes that are equal as typed expressions (same combinator, payload,
+/// merged children and final arrow), i.e. the nodes that have equal identity roots.  Ids are
+/// kept; merged-away nodes become unreachable.  The final types of the merged program are those
+/// of the original (two nodes are only identified when their final arrows agree).
+pub fn dedupe(prog: &Prog, arrows: &HashMap<Id, (Arc<RTy>, Arc<RTy>)>) -> Prog {
+    let n = prog.nodes.len();
+    let mut rep: Vec<Id> = (0..n).collect();
+    let mut has_wd = vec![false; n];
+    let mut nodes = prog.nodes.clone();
+    let mut seen: HashMap<(String, Option<Id>, Option<Id>, u64, u64), Id> = HashMap::new();
+    for i in prog.reachable() {
+        let r = |c: Id| rep[c];
+        let ir = match prog.nodes[i].clone() {
+            Ir::InjL(c) => Ir::InjL(r(c)),
+            Ir::InjR(c) => Ir::InjR(r(c)),
+            Ir::Take(c) => Ir::Take(r(c)),
+            Ir::Drop(c) => Ir::Drop(r(c)),
+            Ir::Comp(a, b) => Ir::Comp(r(a), r(b)),
+            Ir::Case(a, b) => Ir::Case(r(a), r(b)),
+            Ir::Pair(a, b) => Ir::Pair(r(a), r(b)),
+            Ir::AssertL(c, h) => Ir::AssertL(r(c), h),
+            Ir::AssertR(h, c) => Ir::AssertR(h, r(c)),
+            Ir::Disconnect(a, b) => Ir::Disconnect(r(a), b.map(r)),
+            other => other,
+        };
+        let (a, b) = ir.children();
+        has_wd[i] = matches!(ir, Ir::Witness | Ir::Disconnect(..)) || a.map(|c| has_wd[c]).unwrap_or(false) || b.map(|c| has_wd[c]).unwrap_or(false);
+        let payload = match &ir {
+            Ir::Word(k, bits) => format!("word {} {}", k, crate::model::bits::bits_to_string(bits)),
+            Ir::Jet(j) => format!("jet {}", j.name()),
+            Ir::AssertL(_, h) => format!("assertl {}", hex(h)),
+            Ir::AssertR(h, _) => format!("assertr {}", hex(h)),
+            Ir::Fail(e) => format!("fail {}", hex(e)),
+            other => other.kind().to_string(),
+        };
+        nodes[i] = ir;
+        if has_wd[i] {
+            continue;
+        }
+        if let Some((s, t)) = arrows.get(&i) {
+            let key = (payload, a, b, s.hash, t.hash);
+            match seen.get(&key) {
+                Some(&first) => rep[i] = first,
+                None => {
+                    seen.insert(key, i);
+                }
+            }
+        }
+    }
+    Prog { nodes, root: rep[prog.root], family: prog.family }
+}
+
 /// Print `prog` (a 1 -> 1 program whose nodes' principal arrows are `arrows`) as a source text
 /// with the single root `main`.
 pub fn gen_text(src: &mut Src, prog: &Prog, arrows: &HashMap<Id, (Arc<RTy>, Arc<RTy>)>) -> (String, TextInfo) {
+    let merged;
+    let mut deduped = false;
+    let prog = if src.chance(128) {
+        merged = dedupe(prog, arrows);
+        deduped = true;
+        &merged
+    } else {
+        prog
+    };
     let n = prog.nodes.len();
     let reach = prog.reachable();
     let indeg = prog.in_degrees();
@@ -380,10 +442,10 @@ pub fn gen_text(src: &mut Src, prog: &Prog, arrows: &HashMap<Id, (Arc<RTy>, Arc<
     let p_expr_cmr = [256u32, 256, 200, 128, 0][src.below(5)];
     let odd_space = src.chance(64);
     let shuffle = src.chance(176);
-    let name_style = src.weighted(&[8, 6, 6, 4, 2]);
+    let name_style = src.weighted(&[8, 6, 6, 4, 3]);
 
     let mut named = vec![false; n];
-    let mut info = TextInfo::default();
+    let mut info = TextInfo { deduped, ..TextInfo::default() };
     for &i in &reach {
         named[i] = if i == prog.root {
             true
@@ -579,15 +641,17 @@ pub fn soup(src: &mut Src, family: Family, jets: &[JetRef], max_tokens: usize) -
 
 /// Nesting depth for the deep-nesting shapes: mostly small, up to 10_000.
 pub fn nesting_depth(src: &mut Src) -> usize {
-    let e = src.below(14); // 2^0 .. 2^13
-    let d = (1usize << e) + src.below(1usize << e);
-    d.min(10_000)
+    if src.chance(10) {
+        return 4096 + src.below(5905); // 4096 ..= 10_000 (seconds per case: kept rare)
+    }
+    let e = src.below(12); // 2^0 .. 2^11
+    (1usize << e) + src.below(1usize << e)
 }
 
 /// Deeply nested texts.  Returns (shape name, text).
 pub fn deep_nesting(src: &mut Src, d: usize) -> (&'static str, String) {
     let rep = |s: &str, n: usize| s.repeat(n);
-    match src.below(14) {
+    match src.below(15) {
         0 => ("nest: balanced parentheses around an expression", format!("main := {}unit{}", rep("(", d), rep(")", d))),
         1 => ("nest: unbalanced open parentheses", format!("main := {}unit", rep("(", d))),
         2 => ("nest: parentheses in a type", format!("main := unit : {}1{} -> 1", rep("(", d), rep(")", d))),
@@ -608,7 +672,10 @@ pub fn deep_nesting(src: &mut Src, d: usize) -> (&'static str, String) {
         }
         10 => ("nest: left-nested product type", format!("main := unit : 1{} -> 1", rep(" * 1", d))),
         11 => ("nest: closing parentheses only", format!("main := unit{}", rep(")", d))),
-        12 => ("nest: disconnect chain", format!("main := comp {}iden{} unit", rep("disconnect ", d), rep(" ?h", d))),
+        // the parser's witness/disconnect path count keeps one map per node: quadratic memory
+        // (2 GiB at depth 10_000), so these two shapes stop at 3000
+        12 => ("nest: disconnect chain", format!("main := comp {}iden{} unit", rep("disconnect ", d.min(3000)), rep(" ?h", d.min(3000)))),
+        13 => ("nest: witness chain", format!("main := comp {}unit unit", rep("pair witness ", d.min(3000)))),
         _ => ("nest: parenthesised injr chain", format!("main := comp {}unit{} unit", rep("(injr ", d), rep(")", d))),
     }
 }
